@@ -21,6 +21,7 @@ import functools
 from modelx.core.base import (
     Derivable, Impl, Interface, get_mixin_slots)
 from modelx.io.baseio import BaseIOSpec
+from modelx.core.errors import DeletedObjectError
 from modelx.core.node import ObjectNode, get_node, OBJ
 
 
@@ -141,10 +142,20 @@ class ReferenceProxy:
 
     """
 
-    __slots__ = ("_impl",)
+    __slots__ = ("_ref_impl",)
 
     def __init__(self, impl):
-        self._impl = impl
+        object.__setattr__(self, "_ref_impl", impl)
+
+    @property
+    def _impl(self):
+        """The Reference, as long as it is still the one bound to its name"""
+        impl = object.__getattribute__(self, "_ref_impl")
+        parent = impl.parent
+        if (getattr(parent.interface, "_impl", None) is not parent
+                or impl.container.get(impl.name) is not impl):
+            raise DeletedObjectError("the reference has been deleted")
+        return impl
 
     def __getattr__(self, name):
         item = getattr(Interface, name)
